@@ -36,12 +36,14 @@ fn val_name(v: Valuation) -> &'static str {
         Valuation::Ints => "ints",
         Valuation::Dyadic => "dyadic",
         Valuation::Generic => "generic",
+        Valuation::Tiny => "tiny",
     }
 }
 pub fn val_parse(s: &str) -> Valuation {
     match s {
         "ints" => Valuation::Ints,
         "dyadic" => Valuation::Dyadic,
+        "tiny" => Valuation::Tiny,
         _ => Valuation::Generic,
     }
 }
@@ -131,7 +133,7 @@ pub fn check_net(net: &Net, val: Valuation, flat_in: bool, seed: u64, case: &Kv,
     let tr = forward(net, &shapes, &to_f64(&params), &x64, false);
     let out = tr.activated.last().unwrap();
     {
-        let mut d: Vec<i64> = out.iter().filter(|v| **v != 0.0).map(|v| (v * 4096.0) as i64).collect();
+        let mut d: Vec<u64> = out.iter().filter(|v| **v != 0.0).map(|v| v.to_bits()).collect();
         d.sort_unstable();
         d.dedup();
         if d.len() >= 2 {
@@ -310,6 +312,9 @@ pub fn cases(ctx: &Ctx) -> Vec<Kv> {
     for net in sequences(&INPUTS, 3, if thorough { 2 } else { 1 }, &TOKS) {
         let spatial_first = !net.input.is_flat();
         out.push(Kv::new().put("kind", "net").put("net", net.name()).put("val", "dyadic").put("flat", 0));
+        if out.len() % 4 == 0 {
+            out.push(Kv::new().put("kind", "net").put("net", net.name()).put("val", "tiny").put("flat", 0));
+        }
         if spatial_first {
             out.push(Kv::new().put("kind", "net").put("net", net.name()).put("val", "dyadic").put("flat", 1));
         }
